@@ -2,7 +2,7 @@
    Positive theorems on the two specification machines, instantiated at every template of today's library (joined with
    the schema by C03's cm_rows), for ALL histories; refutations as runs of the faithful model M_py. *)
 From MX Require Import Spec.Particle Spec.Deriv Spec.Equiv Gen.Names Gen.Schema Gen.Templates Gen.Lib Model.Tables
-  Model.AbsSeq Model.AbsSeqC02 Model.Classes Model.SeqMachine Model.AbsBag Model.PyM Model.PyObs.
+  Model.AbsSeq Model.AbsSeqC02 Model.Classes Model.SeqMachine Model.ChoiceSeq Model.ChoiceClass Model.AbsBag Model.PyM Model.PyObs.
 From Coq Require Import List String Bool.
 Import ListNotations.
 
@@ -30,6 +30,29 @@ Proof.
   apply (C01_bag l a mn ops B V).
 Qed.
 Print Assumptions C01_partial_bag.
+
+(* Choice machine: the types whose template is a sequence of slots, a slot being choice-free or ONE exclusive choice between a [1,1] leaf
+   or a mandatory sequence per branch (arrow, bend, harmonic, instrument-change, measure-style, percussion, score-instrument, swing):
+   for every history of add / remove / same-name replace / final check, a passing final check means a word of the SCHEMA's content model. *)
+Theorem C01_partial_choice : forall key x l t ops, In (key, Some x, Some l) cm_rows -> is_cseq l = true -> slots_of l = Some t ->
+  cverdict_ok (cmrun t ops) = true -> Lang (re_of x) (AbsSeq.names (cordered (ctree (cmrun t ops)))).
+Proof.
+  intros key x l t ops I Cs St V. destruct (is_cseq_parts l Cs) as (t' & St' & W). rewrite St in St'. injection St' as <-.
+  apply (proj1 (cm_row_sound key x l (forallb_In _ _ _ cm_rows_ok I))).
+  apply (slots_of_lang l t St). apply C01_cmachine; auto.
+Qed.
+Print Assumptions C01_partial_choice.
+Definition choice_keys := map (fun r => fst (fst r)) (filter (fun r => match snd r with Some l => is_cseq l | None => false end) cm_rows).
+Example C01_choice_domain : List.length choice_keys = 8%nat.
+Proof. vm_compute. reflexivity. Qed.
+(* bend: release chosen, pre-bend refused, release removed (the optional choice is released and now demanded), pre-bend accepted *)
+Example C01_nonvacuous_bend :
+  match slots_of tpl_Bend with
+  | Some t => let s := cmrun t [MAdd s_bend_alter; MAdd s_release; MAdd s_pre_bend; MFinal; MRemove 1; MFinal; MAdd s_pre_bend; MFinal] in
+              cverdict_ok s = true /\ AbsSeq.names (cordered (ctree s)) = [s_bend_alter; s_pre_bend] /\ is_cseq tpl_Bend = true
+              /\ cverdict_ok (cmrun t [MAdd s_bend_alter; MAdd s_release; MRemove 1]) = false
+  | None => False end.
+Proof. vm_compute. auto. Qed.
 
 (* ---- non-vacuity: which of today's templates the premises cover, and a history that exercises the sticky activation ---- *)
 Definition seq_keys := map (fun r => fst (fst r)) (filter (fun r => match snd r with Some l => Classes.is_seq l | None => false end) cm_rows).
